@@ -75,4 +75,40 @@ CLAIMED.update({
             "note": "NOT decided: numeric recovery of Ea by lstsq (library numerics); exact ties between nearest experiments are excluded by the property."},
 })
 
+CLAIMED.update({
+    "C07": {"technique": "static: finite basis enumeration + substitution p := to_molar(p) + polynomial identity on every output",
+            "text": "Every modelling entry point is normalised with its composition input labelled weight and labelled molar; the molar normal "
+                    "form with p := to_molar(p) must equal the weight normal form for every output (fluxes, compositions, separation factors, "
+                    "curve fluxes / permeances, all process series, measurement points). Callee independence is established bottom-up.",
+            "note": "Relies on C15 (conversions inverse) and C04-A1 (activity model converts its input). Fitted coefficients themselves are not compared (as the property says)."},
+    "C10": {"technique": "static: syntactic termination argument (bounded-counter loops, finite iterables, acyclic resolved call graph, externals table)",
+            "text": "Every while loop has an unconditionally incremented integer counter compared with a finite invariant bound; every for loop "
+                    "iterates a finite iterable it does not extend; the resolved call graph is acyclic; no reachable external is non-terminating. "
+                    "Hence the flux solver and every model with a finite step count return or raise, for all inputs.",
+            "note": "Library routines are assumed to terminate. NOT decided: the number of iterations."},
+    "C16": {"technique": "static: effect/alias analysis with depth-indexed ownership; call-graph reachability; structural best-of pattern; normal forms",
+            "text": "Write sets of all fitting functions contain no pre-existing object; no random/clock source is reachable and start vector / method "
+                    "are constants; the selection loops match the best-of idiom on the caller's data; __call__/__mul__/from_array have the documented forms.",
+            "note": "NOT decided: that the optimiser reaches an optimum; numeric equality of repeated fits beyond absence of nondeterminism sources."},
+    "C17": {"technique": "static: writer/reader table extraction and set / bijection comparison",
+            "text": "Column sets, field->column->field identity with tuple positions, value/unit and value/type recombination, side-file naming and "
+                    "safe/unsafe symmetry, JSON key bijections, series-vs-scalar shape and the fresh-directory rule are decided on tables extracted "
+                    "from save/load/from_frame/safe_save/safe_load.",
+            "note": "NOT decided: 1e-9 fidelity of CSV/JSON/joblib; directory-suffix collision rate (a collision raises, never overwrites)."},
+    "C18": {"technique": "static: validator structure + who-may-write; sign-set reasoning over path decisions of the series model",
+            "text": "Fractions: every reported composition is built by the validating constructor and p is never assigned. Mass / temperature: every "
+                    "returning path of every process model carries decisions implying positive feed mass (and positive finite feed temperature in "
+                    "non-isothermal models) for the reported step, with the complementary arm raising.",
+            "note": "NOT covered: finiteness of fluxes and heats (no abstract domain in reach bounds magnitudes). Initial amount / temperature assumed admissible."},
+    "C19": {"technique": "static: interprocedural must-raise on all syntactic paths under abstract None-ness inputs; exhaustive 2x2 dispatch tables",
+            "text": "For all 12 entry points computing a driving force, with both permeate parameters set every syntactic path (callees inlined) ends in "
+                    "a raise; the three hand-copied mode chains are total and exclusive; the other rejection classes are must-raise queries.",
+            "note": "Loops over steps / compositions are assumed to execute at least once."},
+    "C20": {"technique": "static: effect/alias analysis (write sets) over the resolved call graph; hidden-state scans; ambient-source taint",
+            "text": "The write set of every public modelling entry point contains only objects allocated during the call; no global/nonlocal, mutable "
+                    "default, cache decorator or mutable module-level container exists; registry classes only construct; clock/hash values reach only "
+                    "comment strings and directory names; no random source is reachable.",
+            "note": "I/O and plotting methods are not modelling calls. NOT decided: bit-identity across library versions."},
+})
+
 NOT_APPLICABLE = {}
